@@ -416,6 +416,47 @@ theorem gsfa_absent (hf : HF) (gs : List AddrIndex) (a : Bytes) (limit : Nat)
   · rename_i hne
     exact absurd h (by intro h'; exact hne l h')
 
+/-- the same with paging (`limit`, `before`, `until` in any combination): whatever window of the listing is asked
+    for, it holds only transactions that mention the address … -/
+theorem gsfaPaged_sound (hf : HF) (gs : List AddrIndex) (a : Bytes) (limit : Nat) (before upto : Option Bytes) (l : List Tx)
+    (h : gsfaPaged hf gs a limit before upto = .ok l) : ∀ t ∈ l, a ∈ t.mentions := by
+  unfold gsfaPaged at h
+  split at h
+  · rename_i l' hl
+    cases h
+    intro t ht
+    exact gsfaAll_all (fun t => a ∈ t.mentions) _ (fun g l h => gsfaEpoch_sound hf g a l h) gs l' hl t
+      (page_subset limit before upto l' t ht)
+  · rename_i hne
+    exact absurd h (by intro h'; exact hne l h')
+
+/-- … and an epoch in which the address merely collides contributes nothing, wherever it sits among the loaded
+    epochs (newer or older than the epochs that hold the address's real history): the answer over `pre ++ g :: post`
+    is the answer over `pre ++ post` -/
+theorem gsfaPaged_colliding_epoch_irrelevant (hf : HF) (pre post : List AddrIndex) (g : AddrIndex) (a : Bytes)
+    (limit : Nat) (before upto : Option Bytes)
+    (habs : ∀ v, ∀ t ∈ g.log v, a ∉ t.mentions) (hok : ∃ l, gsfaEpoch hf g a = .ok l) :
+    gsfaPaged hf (pre ++ g :: post) a limit before upto = gsfaPaged hf (pre ++ post) a limit before upto := by
+  obtain ⟨l, hl⟩ := hok
+  have hnil : l = [] := gsfaEpoch_absent hf g a habs l hl
+  subst hnil
+  have key : gsfaAll (fun g => gsfaEpoch hf g a) (pre ++ g :: post) = gsfaAll (fun g => gsfaEpoch hf g a) (pre ++ post) := by
+    induction pre with
+    | nil =>
+      simp only [List.nil_append]
+      rw [gsfaAll, hl]
+      cases gsfaAll (fun g => gsfaEpoch hf g a) post <;> simp
+    | cons p r ih =>
+      simp only [List.cons_append]
+      rw [gsfaAll, gsfaAll, ih]
+  unfold gsfaPaged
+  rw [key]
+
+theorem gsfaPaged_default (hf : HF) (gs : List AddrIndex) (a : Bytes) (limit : Nat) :
+    gsfaPaged hf gs a limit none none = gsfa hf gs a limit := by
+  unfold gsfaPaged gsfa
+  cases gsfaAll (fun g => gsfaEpoch hf g a) gs <;> simp [page_default]
+
 /-- the check loses nothing: an address whose list holds only transactions that mention it (what `index gsfa`
     writes) gets its whole list -/
 theorem gsfa_complete (hf : HF) (g : AddrIndex) (a v : Bytes) (hl : lookupA hf g.ix a = .found v)
